@@ -49,6 +49,12 @@ theorem Fq.pow_q (c : Fq) : c ^ Gen.q = c := by
   have := FiniteField.pow_card c
   rwa [Zp.card] at this
 
+/-- the (trivial) Frobenius of the prime field model: `FieldOps.frob c k = c = c^(q^k)` -/
+theorem Fq.frobenius_spec (k : ℕ) (c : Fq) : FieldOps.frob c k = c ^ Gen.q ^ k := by
+  have := FiniteField.pow_card_pow k c
+  rw [Zp.card] at this
+  exact this.symm
+
 end Prime
 
 /-! ## `Fq2` -/
